@@ -8,6 +8,11 @@
 //! * `kernels`    every public distance kernel (SIMD dispatch) = the f64 definition.
 //! * `scalar_q`, `binary_q`, `product_q`  the bounds that follow from each quantiser's construction.
 //! * `engine`     `GrafeoDB::create_vector_index` / `vector_search` / `batch_vector_search`, `VectorScanOperator`.
+//! * `vector_join` `VectorJoinOperator`: static / entity-to-entity queries, brute-force / HNSW right side, thresholds,
+//!                label filter, left chunks with selection vectors, > 2048 left rows, `reset`.
+//! * `vec_storage` `RamStorage` / `MmapStorage` histories against a map, bit-exact, close + reopen of the file.
+//! * `zone_map`   `VectorZoneMap`: statistics = definitions, pruning conservative (single and merged maps),
+//!                block-wise search with pruning on = off.
 
 use proptest::prelude::*;
 use serde::{Deserialize, Serialize};
@@ -20,6 +25,9 @@ mod engine;
 mod hnsw;
 mod kernels;
 mod quant;
+mod vjoin;
+mod vstorage;
+mod zonemap;
 
 // ------------------------------------------------------------------------------------------------
 // Metric + f64 reference definitions
@@ -229,7 +237,11 @@ pub fn run(r: &mut Run) {
               of live ids are frequent, vectors from a per-history pool (duplicates, zero vectors, magnitudes to 1e18), \
               dims 1..=40 + {63,64,65,257}, 4 metrics, k/ef in {0,1,..,>n,usize::MAX}; non-trivial = a search with k < n after \
               >= 1 removal or re-insert that returned >= 1 result; brute/kernels/quantisers: non-trivial = dim >= 2 and non-degenerate \
-              operands (see per-sub-check classes); distinct by hash of the case"
+              operands (see per-sub-check classes); vector_join: non-trivial = >= 2 left rows with output rows and 1 <= k < number of \
+              right candidates (classes: static|entity / brute|hnsw, +sel = left chunks carry a selection, +multichunk = > 2048 left rows, \
+              +thr = a distance / similarity threshold is set); vec_storage: non-trivial = an overwrite or an effective removal before a \
+              reopen (file) / anywhere (RAM), dimension >= 1; zone_map: non-trivial = dimension >= 2 and the probes of the case both skipped \
+              and kept a non-empty block; distinct by hash of the case"
         .into();
     r.assumptions.push(
         "vector components are finite, |x| <= min(1e18, sqrt(2e38/(4 dim))) so that no f32 sum of squares/products overflows; \
@@ -252,8 +264,18 @@ pub fn run(r: &mut Run) {
             .into(),
     );
 
+    r.assumptions.push(
+        "vector_join / vec_storage: every vector has the dimension of its query / store (compute_distance and VectorStorage::insert \
+         debug-assert equal lengths; documented); zone_map pruning slack = the f32 evaluation tolerance of a distance between the query \
+         and a member of the block (1e-3 relative to the threshold + 4(n+4)eps32 * (|q| + 2 max|v|) for L2, * 1 for cosine)"
+            .into(),
+    );
+
     hnsw::run(r);
     kernels::run(r);
     quant::run(r);
     engine::run(r);
+    vjoin::run(r);
+    vstorage::run(r);
+    zonemap::run(r);
 }
